@@ -30,9 +30,6 @@ func VerifC10_Sum() {
 	vrtCmdAssumeClock(h, now)
 	vrt.SetClock(uint32(now))
 	maxF := 2
-	if vrt.Tier() == 1 {
-		maxF = 3
-	}
 	nf := 1 + vrt.Choose("files", maxF)
 	names := []string{"a.wsp", "b.wsp", "c.wsp"}
 	var paths []string
